@@ -18,6 +18,15 @@ type Conn struct {
 
 func (conn Conn) RemoteCall() string { return conn.remoteCall }
 
+// bufferedConn is a net.Conn that keeps reading through the buffered reader that was used for
+// the login, so that bytes received together with the last login line are not lost.
+type bufferedConn struct {
+	net.Conn
+	r *bufio.Reader
+}
+
+func (c bufferedConn) Read(p []byte) (int, error) { return c.r.Read(p) }
+
 type listener struct{ net.Listener }
 
 // Starts a new net.Listener listening for incoming connections.
@@ -54,5 +63,5 @@ func (ln listener) Accept() (net.Conn, error) {
 	fmt.Fprintf(conn, "Password :\r")
 	_, err = reader.ReadString('\r') //TODO
 
-	return &Conn{conn, remoteCall}, err
+	return &Conn{bufferedConn{conn, reader}, remoteCall}, err
 }
